@@ -1118,7 +1118,9 @@ pub fn run_net(prog: &NetProgram, opts: &RunOpts) -> NetResult {
             drop(sim);
             return (build, None, false);
         }
-        drop(shared);
+        if prog.late_links.is_empty() {
+            shared.clear();
+        }
         if opts.collect_gate_info {
             for m in 0..nmod {
                 for gi in 0..flat[m].len() {
@@ -1195,7 +1197,7 @@ pub fn run_net(prog: &NetProgram, opts: &RunOpts) -> NetResult {
                 rt.app.get(&ObjectPath::from(module_path(&prog, m).as_str())).and_then(|r| r.gate(name, *pos))
             };
             if let (Some(a), Some(b)) = (find(l.am, l.ag), find(l.bm, l.bg)) {
-                let ch = l.chan.as_ref().map(to_channel);
+                let ch = l.chan.as_ref().map(|c| if prog.share_channels { shared.entry(hash64(c)).or_insert_with(|| to_channel(c)).clone() } else { to_channel(c) });
                 // only legal connects are issued here (a rejected one would leave the gate locked)
                 let free = |g: &GateRef| g.kind() != GateKind::Transit;
                 if !std::sync::Arc::ptr_eq(&a, &b) && free(&a) && free(&b) {
@@ -1207,6 +1209,7 @@ pub fn run_net(prog: &NetProgram, opts: &RunOpts) -> NetResult {
                 }
             }
         }
+        drop(shared);
         rt.dispatch_all();
         let result = rt.finish();
         (build, Some(result), true)
